@@ -45,6 +45,11 @@ inductive Handler (α : Type) where
   | angleBased | nearLat (lat : α) | nearGood | sevHalf | minAlways | minInv | noop
   deriving Repr, Inhabited
 
+/-- how adj_for_int reads the extreme flag of a possibly invalid Fajr/Isha -/
+inductive FlagRead where
+  | unwrap | mapOrFalse
+  deriving DecidableEq, Repr, Inhabited
+
 /-- the upper bound expression of the nearest-good-day loop -/
 inductive SearchBound where
   | ordinal | daysInYear
